@@ -344,6 +344,9 @@ func yangFiles(c tcase) (files [][2]string, firstLine int) {
 	gen := "type " + tn + " {\n" + mem.String() + " }" // the generated type statement; members start on the next line
 	head := "module m { namespace \"urn:m\"; prefix m; feature f; extension note { argument t; }\n"
 	var pre, post string
+	if isUnused(c.Form) {
+		return unusedFiles(c.Form, head, gen) // unused.go: a typedef that nothing refers to
+	}
 	switch c.Form {
 	case "":
 		pre, post = head+" leaf l { ", " } }\n"
@@ -467,6 +470,14 @@ func tables(c tcase, ms *yang.Modules) []*yang.EnumType {
 		}
 		return e.Type
 	}
+	if isUnused(c.Form) {
+		// nothing uses the typedef: its own resolved type, in the statement tree
+		td := unusedTypedef(ms)
+		if td == nil {
+			return []*yang.EnumType{nil}
+		}
+		return []*yang.EnumType{pick(td.YangType)}
+	}
 	switch c.Form {
 	case "dr", "da", "tddr":
 		return []*yang.EnumType{pick(typeOf(yang.ToEntry(ms.Modules["o"]), "l"))}
@@ -502,10 +513,6 @@ type origin struct {
 }
 
 func origins(c tcase, ms *yang.Modules) []origin {
-	m := ms.Modules["m"]
-	if m == nil {
-		return nil
-	}
 	pick := func(t *yang.YangType) *yang.EnumType {
 		if t == nil {
 			return nil
@@ -514,6 +521,16 @@ func origins(c tcase, ms *yang.Modules) []origin {
 			return t.Bit
 		}
 		return t.Enum
+	}
+	if isUnused(c.Form) {
+		if td := unusedTypedef(ms); td != nil && td.Type != nil {
+			return []origin{{"the type statement of typedef t", pick(td.Type.YangType)}}
+		}
+		return nil
+	}
+	m := ms.Modules["m"]
+	if m == nil {
+		return nil
 	}
 	ofType := func(t *yang.Type) *yang.EnumType {
 		if t == nil {
@@ -799,7 +816,7 @@ func classify(c tcase, firstLine int, raw []error) []string {
 // project keeps what is compared: for the typedef form with errors only the errors (the leaf has no
 // resolved type then); everything otherwise.  Applied to the Go answer and to the model's answer.
 func project(c tcase, ans string) string {
-	if !(c.Form == "typedef" || c.Form == "chain" || c.Form == "r2" || c.Form == "dr" || c.Form == "da") || !strings.HasPrefix(ans, "errs=") {
+	if !(c.Form == "typedef" || c.Form == "chain" || c.Form == "r2" || c.Form == "dr" || c.Form == "da" || isUnused(c.Form)) || !strings.HasPrefix(ans, "errs=") {
 		return ans
 	}
 	first := strings.Fields(ans)[0]
@@ -812,6 +829,14 @@ func project(c tcase, ans string) string {
 // judge: does the Go answer g satisfy the specification answer s (na | none | ok table; on the ops path one
 // such answer per prefix of the calls, separated by stepSep)?
 func judge(c tcase, g, s string) (bool, string) {
+	ok, what := judge0(c, g, s)
+	if c.Path == "text" && isUnused(c.Form) {
+		what = unusedClause(c, g, what)
+	}
+	return ok, what
+}
+
+func judge0(c tcase, g, s string) (bool, string) {
 	if i := strings.Index(g, aliasedMark); i >= 0 {
 		return false, "a value handed out by an accessor (NameMap/ValueMap/Names/Values) is not the caller's own: the table must be the one of the Set/SetNext calls alone (views_inverse, fold_eq_rfc), but editing the handed-out object changed it: " + g[i:]
 	}
@@ -827,7 +852,7 @@ func judge(c tcase, g, s string) (bool, string) {
 	if strings.HasPrefix(g, runsDiffer) {
 		// every run has to satisfy the specification
 		for i, d := range strings.Split(strings.TrimPrefix(g, runsDiffer), runSep) {
-			if ok, what := judge(c, d, s); !ok {
+			if ok, what := judge0(c, d, s); !ok {
 				return false, fmt.Sprintf("run %d of history %q: %s", i+1, c.Hist, what)
 			}
 		}
@@ -1415,6 +1440,8 @@ func main() {
 	var cases []tcase
 	var ans, specAns []string
 	allForms := append(append([]string{"", "typedef"}, newForms...), nearForms...)
+	rx := f.Rand(5)
+	unusedRot, unusedCount := 0, int64(0)
 	for i, b := range bases {
 		var xs []tcase
 		switch {
@@ -1475,7 +1502,22 @@ func main() {
 				xs = expand(b.c, b.typedefToo, twinOf(b.c, baseAns[i]), rot, 3, []string{"a", "b", "c", "d"})
 			}
 		}
+		// unused.go: the list in a typedef that nothing refers to.  Lists of one and two members (and, in the
+		// thorough tier, all enumerated ones): every such placement; lists of three, decorated, odd-named and
+		// random ones: one placement, taken in rotation, for a seeded half of them (thorough: all of them)
+		if b.c.Path == "text" {
+			switch {
+			case !b.random && !b.decorated && b.odd == 0 && (len(b.c.Names) <= 2 || f.Thorough()):
+				xs = append(xs, unusedPlacements(b.c, -1)...)
+			case f.Thorough() || rx.Intn(2) == 0:
+				xs = append(xs, unusedPlacements(b.c, unusedRot)...)
+				unusedRot++
+			}
+		}
 		for _, x := range xs {
+			if isUnused(x.Form) {
+				unusedCount++
+			}
 			cases = append(cases, x)
 			ans = append(ans, project(x, baseAns[i]))
 			specAns = append(specAns, baseSpec[i])
@@ -1565,7 +1607,21 @@ func main() {
 	perPlace := map[string]int{}
 	nViol, nHold := 0, 0 // separate caps: violating disagreements are never crowded out by harmless ones
 	accepted, rejected, na := int64(0), int64(0), int64(0)
+	// examined first: the lists the RFC rejects in a typedef nothing refers to (so that, when such placements
+	// fail, the recorded findings show the unreported invalid lists before the accepted ones left unresolved)
+	order := make([]int, 0, len(cases))
 	for i, c := range cases {
+		if isUnused(c.Form) && specAns[i] == "none" {
+			order = append(order, i)
+		}
+	}
+	for i, c := range cases {
+		if !(isUnused(c.Form) && specAns[i] == "none") {
+			order = append(order, i)
+		}
+	}
+	for _, i := range order {
+		c := cases[i]
 		lastSpec := specAns[i]
 		if k := strings.LastIndex(lastSpec, stepSep); k >= 0 {
 			lastSpec = lastSpec[k+len(stepSep):]
@@ -1597,8 +1653,12 @@ func main() {
 		}
 		if v == "violates" || kind == "crash" {
 			// at most 8 per path and placement, so that the recorded ones show every place the fault reaches
-			place := c.Path + "/" + c.Form
-			if perPlace[place]++; nViol >= 50 || perPlace[place] > 8 {
+			place, most := c.Path+"/"+c.Form, 8
+			if isUnused(c.Form) {
+				// lists the RFC rejects and lists it accepts are recorded side by side, for every placement
+				place, most = place+"/"+strings.SplitN(lastSpec, " ", 2)[0], 2
+			}
+			if perPlace[place]++; nViol >= 50 || perPlace[place] > most {
 				res.Count("violating_disagreements_not_recorded", 1)
 				continue
 			}
@@ -1627,6 +1687,10 @@ func main() {
 		"its twin (exactly the members the model's fold leaves), an unrelated enumeration and string, as the inline type of deviate replace / deviate add on a leaf of another module, "+
 		"inside a type statement that names an enumeration/bits typedef with other members (in a leaf, a derived typedef, a union, a leaf-list: goyang folds the written list from an empty table there), "+
 		"and as member 2 of a union behind a near twin (the surviving table with the zero-valued member renamed / the maximum-valued member renamed / one value changed / one more member), where every member of the union is read back and both tables must be intact; the random ones get one random placement. "+
+		"A typedef that NOTHING refers to: every text list of one and two members in every one of "+fmt.Sprintf("%d", len(unusedForms))+" placements (the first four also under the histories b / d), a seeded half of the lists of three, the decorated, odd-named and random ones in one of them in rotation (thorough: all enumerated lists everywhere, the others in one) - "+
+		"typedef t holding the generated type, no leaf / typedef / union / deviation naming t: at module level, in a container, a list, an rpc, the input / output of an rpc, a notification, directly in a grouping used once / twice / never, in a container / list inside a used grouping, in a container inside an unused grouping, "+
+		"in a grouping nested in a used grouping (inner one unused / used inside the outer), in an unused grouping whose own leaf is the only user, in a submodule (top level, container, grouping used by the including module, grouping never used). "+
+		"Process must report exactly the model's errors (member + class), so every list the RFC rejects is reported wherever it is written and no accepted one is; for an accepted list Typedef.YangType and the typedef's type statement, reached in the statement tree, hold the RFC table (views edited and re-read as everywhere). "+
 		"Members of text lists also carry substatements that must not influence the numbering - status current/deprecated/obsolete, description, reference, if-feature (defined and undefined feature), an extension statement, before or after the value - "+
 		"on explicit and implicit members in every position: lists of length 1 and 2 over member position x substatement, a seeded sample of the lists of length 3 (one member / every member decorated), a quarter of the members of the random lists; in a leaf (histories a, b) and a seeded quarter (thorough: all) of the placements; the model never sees them. "+
 		"On the direct path every view (Names, Values, NameMap, ValueMap, the maps ToInt and ToString, point lookups) is read back after EVERY Set/SetNext call and compared with the model's table after that prefix; the views must equal the maps and, for enumerations, be mutually inverse at every step, and the table after every call is judged against the RFC assignment of the calls made so far. "+
@@ -1661,6 +1725,7 @@ func main() {
 		res.Notes = append(res.Notes, "EnumType has accessors returning a map, slice or pointer whose results are not edited by the runner: "+strings.Join(u, ", "))
 	}
 	res.Distribution["lists_with_member_substatements"] = decorated
+	res.Distribution["cases_in_a_typedef_nothing_refers_to"] = unusedCount
 	res.Distribution["cases_by_kind_and_path"] = byKey
 	res.Distribution["text_cases_by_history_and_form"] = byHist
 	res.Distribution["calls_after_resolution_cases_by_placement"] = byPost
